@@ -230,6 +230,20 @@ fn emulate_blocked(n: libc::c_int) -> String {
     })
 }
 
+/// the signal is being ignored (SIGPIPE in every Rust program, SIGHUP / SIGINT under nohup): the emulation is of the
+/// *default* action, whatever disposition is in place
+fn emulate_ignored(n: libc::c_int) -> String {
+    fork_classify(move || unsafe {
+        if libc::signal(n, libc::SIG_IGN) == libc::SIG_ERR {
+            return 4;
+        }
+        match signal_hook::low_level::emulate_default_handler(n) {
+            Ok(()) => 0,
+            Err(_) => 3,
+        }
+    })
+}
+
 fn emulate_oneshot(n: libc::c_int) -> String {
     fork_classify(move || unsafe {
         ONESHOT_SIG.store(n, Ordering::SeqCst);
@@ -347,6 +361,7 @@ pub fn main() -> i32 {
                         "worker" => emulate_worker(n),
                         "blocked" => emulate_blocked(n),
                         "oneshot" => emulate_oneshot(n),
+                        "ignored" => emulate_ignored(n),
                         "handler" => emulate_in_handler(n),
                         "cond" => emulate_cond_default(n),
                         _ => "bad-ctx".into(),
